@@ -74,7 +74,7 @@ def write_transform(d, case):
     kind = tf["file"]
     if kind == "npy":
         p = os.path.join(d, "tf.npy")
-        np.save(p, A)
+        np.save(p, A.astype(np.int64) if tf.get("int_dtype") else A)   # a matrix written with integer literals
     elif kind == "txt":
         p = os.path.join(d, "tf.txt")
         np.savetxt(p, A)
@@ -185,7 +185,11 @@ def impl(case):
         outd = os.path.join(d, "out")
         os.makedirs(outd)
         os.chdir(outd)
+        from evo.tools.settings import SETTINGS
+        seq0 = SETTINGS.euler_angle_sequence
         try:
+            if o.get("euler_seq"):   # a user setting that concerns the roll/pitch/yaw PLOT only
+                SETTINGS.euler_angle_sequence = o["euler_seq"]
             args = main_traj_parser.parser().parse_args(argv)
             main_traj.run(args)
         except SystemExit as e:
@@ -200,6 +204,7 @@ def impl(case):
                     return {"both_refused": type(e).__name__, "argv": argv[1:]}
             return {"exception": type(e).__name__ + ": " + str(e)[:150] + traceback.format_exc()[-400:], "argv": argv[1:]}
         finally:
+            SETTINGS.euler_angle_sequence = seq0
             os.chdir(cwd)
         ext = ".kitti" if case["export"] == "kitti" else ".tum"
         exported = {f[:-len(ext)]: read_export(os.path.join(outd, f), case["export"] == "kitti")
@@ -366,8 +371,16 @@ def gen(ctx):
             # --propagate_transform only concerns right-multiplication; given with --transform_left it must be ignored
             o["transform"] = {"A": H(A), "file": str(rng.choice(["npy", "txt", "json"])), "right": right,
                               "invert": bool(rng.random() < 0.5), "propagate": bool(rng.random() < (0.5 if right else 0.3))}
+            if i % 9 == 4:   # integer-valued SE(3)/Sim(3) (axis permutation, integer scale and offset) saved with an integer dtype
+                perm = [np.eye(3), np.array([[0, -1, 0], [1, 0, 0], [0, 0, 1.0]]), np.array([[0, 0, 1], [1, 0, 0], [0, 1, 0.0]])][(i // 9) % 3]
+                A = np.eye(4)
+                A[:3, :3] = perm * float([1, 2, 2, 4][(i // 27) % 4])
+                A[:3, 3] = np.rint(rng.normal(size=3) * 3)
+                o["transform"].update({"A": H(A), "file": "npy", "int_dtype": True, "invert": bool((i // 9) % 4 != 3)})
         if rng.random() < 0.35:
             o["plane"] = str(rng.choice(["xy", "xz", "yz"]))
+            if i % 3 == 1:
+                o["euler_seq"] = ["rzyx", "szyx", "sxzy"][(i // 3) % 3]
         if o.get("merge") and (o.get("align") or o.get("correct_scale")) and o.get("n_to_align"):
             del o["n_to_align"]
         cases.append({"kind": "traj", "fmt": fmt, "trajs": trajs, "opts": o, "export": "kitti" if (fmt == "kitti" or i % 3 == 0) else "tum"})
